@@ -11,8 +11,8 @@
    are local to this file.  Written once over a record of operations `fops F`; executed at Zops (exact on
    integer-valued factors), proved for every carrier whose operations form a commutative ring.
    Definitions only. *)
-From Coq Require Import List Arith Lia Bool.
-From TLV Require Import Base.Shape Base.PyList Base.Tensor Base.BigSum Base.Ops Model.Base.
+From Coq Require Import List Arith ZArith Lia Bool.
+From TLV Require Import Base.Shape Base.PyList Base.Tensor Base.BigSum Base.Ops Model.Base Model.BaseExt.
 Import ListNotations.
 
 Section M.
@@ -583,6 +583,11 @@ Definition parafac2_to_tensor w (fs ps : list (tensor F)) : res (tensor F) :=
   parafac2_to_tensor_from (validate_parafac2 w fs ps) w fs ps.
 Definition parafac2_to_unfolded w fs ps (mode : nat) := rbind (parafac2_to_tensor w fs ps) (fun t => unfold zero t mode).
 Definition parafac2_to_vec w fs ps := rbind (parafac2_to_tensor w fs ps) tensor_to_vec.
+
+(* ------------------------------------------------------------------ negative unfolding modes *)
+(* to_unfolded(mode = -k) of Tucker / TT / TR / TT-matrix / PARAFAC2 tensors: tl.unfold(<dense reconstruction>, -k), i.e. C01's unfold_z
+   (np.moveaxis / shape[mode] with Python's negative indexing; outside [-order, order) an error) *)
+Definition unfolded_neg (r : res (tensor F)) (k : nat) : res (tensor F) := rbind r (fun t => unfold_z zero t (- Z.of_nat k)%Z).
 
 (* ------------------------------------------------------------------ wrapper objects *)
 (* CPTensor / TuckerTensor / TTTensor / TRTensor / TTMatrix / Parafac2Tensor: the constructor validates once and CACHES
